@@ -1,11 +1,12 @@
 import Ops.Core
 import Ops.Codec
 import Ops.Transforms
+import Ops.Quant
 /- Line-protocol driver of the executable model: one op per line in, one line out. -/
 open Draco
 
 def allOps : List (String × (List String → String)) :=
-  Ops.coreOps ++ Ops.codecOps ++ Ops.transformOps
+  Ops.coreOps ++ Ops.codecOps ++ Ops.transformOps ++ Ops.quantOps
 
 def dispatch (line : String) : String :=
   match (line.trimAscii.toString.splitOn " ").filter (· ≠ "") with
